@@ -16,7 +16,8 @@ for d in sorted(glob.glob(os.path.join(HERE, "seeded", "C*-*m[0-9]"))):
     fptxt = open(fp_path).read() if os.path.exists(fp_path) else ""
     demo_clean = re.search(r"demo clean rc=(\d+)", txt) or re.search(r"demo clean rc=(\d+)", fptxt)
     demo_patched = re.search(r"demo patched rc=(\d+)", txt) or re.search(r"demo patched rc=(\d+)", fptxt)
-    suite = re.search(r"suite: (.*)", txt) or re.search(r"suite: (.*)", fptxt)
+    sp_ = os.path.join(d, "suite.txt")
+    suite = re.search(r"suite: (.*)", txt) or re.search(r"suite: (.*passed.*)", fptxt) or (re.search(r"suite: (.*)", open(sp_).read()) if os.path.exists(sp_) else None)
     first = None
     if fptxt and len(re.findall(r"^C\d+ rc=", fptxt, re.M)) == 20:
         fc = [m.group(1) for m in re.finditer(r"^(C\d+) rc=1 ", fptxt, re.M)]
